@@ -63,3 +63,9 @@ PROPS['C15'] = dict(
     stages=[dict(name='tbf', bin='vfilter_race', args=['-prop', 'C15'], shards=shards(4, 8), par=4, crash_is_violation=True, crash_key='tbf:crash')],
     need_counters=['datagrams', 'forwarded', 'windows_checked', 'single_sender_runs', 'multi_sender_runs', 'drops_with_full_queue'],
 )
+
+PROPS['C18'] = dict(
+    level='exploration', builds={'pipes_race': dict(pkg='./cmd/pipes', race=True)},
+    stages=[dict(name='scripts', bin='pipes_race', shards=shards(4, 12), par=12, crash_is_violation=True, crash_key='pipes:crash')],
+    need_counters=['bridge_writes', 'bridge_delivered', 'bridge_reorder_batches', 'bridge_drop_calls', 'dpipe_reads', 'dpipe_reads_after_peer_close'],
+)
